@@ -143,6 +143,12 @@ func CheckMain(args []string) int {
 		if def.MaxPaths > 0 {
 			x.MaxPaths = def.MaxPaths
 		}
+		// every job has a wall-clock budget, so that a change to /repo that makes an exploration diverge is
+		// reported (UNWIND -> INCONCLUSIVE, or the violations found by the other jobs) instead of hanging
+		x.JobWall = 12 * time.Minute
+		if *tier == "thorough" {
+			x.JobWall = 45 * time.Minute
+		}
 		jobs := def.Jobs(*tier)
 		if *only != "" {
 			var f []*sym.Job
